@@ -27,6 +27,10 @@ ASSUMPTIONS = ["tifffile / pynrrd / np.save-load store and return the array they
                "the constructor calls in-process)", "float32 rounding of voxel coordinates"]
 
 
+INT_TYPES = ["uint8", "uint16", "uint32", "int16", "int32"]
+INT_MAX = {"uint8": 2**8 - 1, "uint16": 2**16 - 1, "uint32": 2**32 - 1, "int16": 2**15 - 1, "int32": 2**31 - 1}
+
+
 class SaveLoad(Suite):
     name = "c20.saveload"
     case_timeout = 60
@@ -42,12 +46,30 @@ class SaveLoad(Suite):
             combos = sorted(combos[:30], key=str) + [("tif", "float32", "uint8", "float32"), ("tif", "float32", "uint8", "same"), ("tif", "uint8", "float32", "uint8")]
         else:
             combos = combos * 2
-        for fmt, kind, save_dtype, read_dtype in combos:
+        # integer -> another integer type (other unsigned width, signed <-> unsigned), requested at read time (every format) or at save time
+        # (save_tiff(dtype=...)): no integer/float conversion occurs, so the documented rescaling does not apply and values that fit both
+        # types come back unchanged.  "fit": the values are drawn from the range every type on the way can hold (both ends included).
+        routes = ["tif-read", "tif-save", "nrrd", "npy"]
+        pairs = [(a, b) for a in INT_TYPES for b in INT_TYPES if a != b]
+        if big:
+            int_combos = [(rt, a, b) for rt in routes for a, b in pairs]
+        else:
+            int_combos = [(rt,) + rng.choice(pairs) for rt in routes for _ in range(2)]
+            # at least one widening and one narrowing unsigned pair, one unsigned <-> signed pair
+            int_combos += [(rng.choice(routes),) + rng.choice([(a, b) for a, b in pairs if ok(a, b)])
+                           for ok in (lambda a, b: a[0] == b[0] == "u" and INT_MAX[a] < INT_MAX[b], lambda a, b: a[0] == b[0] == "u" and INT_MAX[a] > INT_MAX[b],
+                                      lambda a, b: a[0] != b[0])]
+        for rt, a, b in int_combos:
+            fmt = rt.split("-")[0]
+            combos.append((fmt, a, b if rt == "tif-save" else None, rng.choice(["same", b]) if rt == "tif-save" else b, "fit"))
+        for fmt, kind, save_dtype, read_dtype, *rest in combos:
             shape = [rng.choice([1, 2, 3, 4, 5, 7]) for _ in range(3)] + [rng.choice([1, 1, 3])]
             out.append({"class": f"{fmt}/{kind}->{save_dtype}->{read_dtype}", "shape": shape, "kind": kind, "fmt": fmt, "save_dtype": save_dtype,
                         "read_dtype": read_dtype, "seed": rng.randrange(10**6), "drop_c": shape[3] == 1 and rng.random() < 0.4,
                         # writer options the call forwards to tifffile: the caller's own metadata, no compression
                         "opts": rng.choice(["-", "-", "metadata", "nocompress", "metadata"]) if fmt == "tif" else "-"})
+            if rest:
+                out[-1]["vals"] = rest[0]
         return out
 
     def run(self, case):
@@ -58,6 +80,13 @@ class SaveLoad(Suite):
         shape = case["shape"]
         if case["kind"] == "float32":
             a = (r.randint(0, 256, size=shape) / 255.0).astype(np.float32)
+        elif case.get("vals") == "fit":
+            # values every integer type on the way (source, stored, read) holds exactly, the common maximum and 0 among them
+            on_the_way = [case["kind"], case["save_dtype"] or case["kind"]] + ([] if case["read_dtype"] == "same" else [case["read_dtype"]])
+            hi = min(INT_MAX[k] for k in on_the_way)
+            a = r.randint(0, hi + 1, size=shape, dtype=np.int64)
+            a.flat[r.randint(a.size)] = 0; a.flat[r.randint(a.size)] = hi
+            a = a.astype(case["kind"])
         else:
             hi = 256 if case["kind"] == "uint8" else 65536
             a = r.randint(0, hi, size=shape).astype(case["kind"])
@@ -114,7 +143,7 @@ class SaveLoad(Suite):
         if res["shape"] != case["shape"]:
             return [("imgs-shape", f"{case['class']}: saved shape (X,Y,Z,C)={case['shape']}, read back {res['shape']}")]
         a = np.array(res["orig"]); b = np.array(res["vals"])
-        MAX = {"uint8": 255.0, "uint16": 65535.0}
+        MAX = {"uint8": 255.0, "uint16": 65535.0, "uint32": 4294967295.0}
         kind, stored, read = case["kind"], res["stored"], res["read"]
         # value the documented rescaling gives: source kind -> stored kind -> read kind
         def conv(v, src, dst):
@@ -124,7 +153,7 @@ class SaveLoad(Suite):
                 return v / MAX[src], 1e-6
             if src.startswith("float") and dst.startswith("uint"):
                 return v * MAX[dst], 1.0 + 1e-6          # truncation: up to one unit
-            return v, 0.0                                # uint -> uint: plain cast
+            return v, 0.0                                # integer -> integer (any width, signed or not): plain cast, nothing to rescale
         w, tol1 = conv(a, kind, stored)
         if stored.startswith("uint") and kind.startswith("float"):
             w = np.floor(w + 1e-4)
@@ -151,6 +180,13 @@ def in_hull(p, a, b, ra, rb, margin):
     for t in np.linspace(0, 1, 41):
         c = a + t * (b - a); r = ra + t * (rb - ra)
         best = min(best, np.linalg.norm(p - c) - r)
+    # the ball of the family nearest to p exactly (t ↦ |p − c(t)| − r(t) is convex: stationary point, clamped to the edge): between two samples
+    # a thin part of the cone (radius below half the sample spacing, e.g. next to a tip of radius 0) is not covered by the sampled balls
+    L = float(np.linalg.norm(b - a))
+    if L > 0 and abs(rb - ra) < L:
+        u = (b - a) / L; s = float(np.dot(p - a, u)); rho = float(np.linalg.norm(p - a - s * u)); k = (rb - ra) / L
+        t = min(1.0, max(0.0, (s + k * rho / math.sqrt(1 - k * k)) / L))
+        best = min(best, np.linalg.norm(p - (a + t * (b - a))) - (ra + t * (rb - ra)))
     return -1 if best < -margin else (1 if best > margin else 0)
 
 
@@ -177,6 +213,40 @@ class Raster(Suite):
                     big, small = rng.choice([(1.5, 0.5), (1.0, 0.5), (1.5, 1.0), (1.0, 1.0)])
                     t2["r"][par], t2["r"][c] = (big, small) if rng.random() < 0.6 else (small, big)
                     out.append({"class": f"n{t2['n']}/tucked", "tree": t2, "res": rng.choice([0.5, 1.0, 0.75])})
+        # radii at zero: SWC trees taper to sharp tips (a leaf of radius 0), have necks pinched to 0 between thick nodes, start from a point, or
+        # carry unmeasured (0) radii here and there.  An edge with ONE end of radius 0 is a proper cone (the hull of a ball and a point), an edge
+        # with both ends 0 has no volume, a zero-radius node inside its neighbour's ball leaves that ball.
+        for v in ["tip", "neck", "root", "zero-edge", "tucked", "scattered"] * (4 if tier == "thorough" or widen else 1):
+            n = rng.choice([2, 3, 4] if v in ("tip", "root", "tucked") else [3, 4, 5])
+            t = gen.tree_case(rng, n, rng.choice(["chain", "caterpillar", "stem", "random", "star"]), numbering="sorted", coords="lattice")
+            if v in ("neck", "zero-edge") and all(t["pids"].count(c) == 0 for c in range(1, n)):
+                t["pids"] = [-1] + list(range(n - 1))          # no inner node: make it a chain
+            pids = t["pids"]
+            t["xyz"] = [[c / 8.0 for c in p] for p in t["xyz"]]
+            t["r"] = [rng.choice([0.5, 1.0, 1.5]) for _ in t["r"]]
+            leaves = [c for c in range(1, n) if pids.count(c) == 0]; inner = [c for c in range(1, n) if pids.count(c) > 0]
+            if v == "tip":
+                for c in rng.sample(leaves, rng.randint(1, len(leaves))):
+                    t["r"][c] = 0.0
+            elif v == "neck":
+                t["r"][rng.choice(inner)] = 0.0
+            elif v == "root":
+                t["r"][0] = 0.0
+            elif v == "zero-edge":
+                c = rng.choice(inner if rng.random() < 0.5 else list(range(1, n)))
+                t["r"][c] = t["r"][pids[c]] = 0.0
+                others = [i for i in range(n) if i not in (c, pids[c])]
+                if all(t["r"][i] == 0.0 for i in others):
+                    t["r"][others[0]] = 1.0
+            elif v == "tucked":
+                c = rng.choice(leaves); par = pids[c]
+                t["r"][c] = 0.0
+                t["xyz"][c] = [t["xyz"][par][i] + rng.choice([-2, -1, 0, 1, 2]) / 8.0 for i in range(3)]     # |offset| ≤ √12/8 < 0.5 ≤ r(parent)
+            else:
+                t["r"] = [0.0 if rng.random() < 0.4 else x for x in t["r"]]
+                if not any((t["r"][c] == 0.0) != (t["r"][pids[c]] == 0.0) for c in range(1, n)):
+                    c = rng.choice(leaves); t["r"][c] = 0.0; t["r"][pids[c]] = 1.0
+            out.append({"class": f"n{n}/zero-radius/{v}", "tree": t, "res": rng.choice([0.5, 0.5, 0.75, 1.0, [1.0, 0.5, 2.0], [0.5, 0.5, 1.0]])})
         # fixed degenerate edges: child ball inside the parent ball, parent inside child, coincident nodes, internal tangency
         for xyz, r in (([[0.0, 0.0, 0.0], [0.0, 1 / 3, -1 / 3], [1.5, 0.5, 2.5]], [1.0, 0.5, 0.5]),
                        ([[0.0, 0.0, 0.0], [0.25, 0.0, 0.25], [2.0, 0.0, 0.0]], [0.5, 1.5, 0.5]),
@@ -224,6 +294,7 @@ class Raster(Suite):
         res = {"shape": list(img.shape), "lit": np.argwhere(img > 0).tolist(), "values": sorted(set(int(v) for v in np.unique(img))), "solids": solids}
         if img.size and case["tree"]["n"] % 2 == 0:
             # the same raster written slice by slice to a TIFF and read back through the image-stack reader: (Z, X, Y) ↔ (X, Y, Z, C)
+            # (a raster of ONE z plane is written as a single 2-D page which read_imgs refuses: known finding `raster-file-single-plane-raises`)
             import tempfile, shutil, os
             from swcgeom.images.io import read_imgs
 
@@ -231,9 +302,12 @@ class Raster(Suite):
             try:
                 fn = os.path.join(tmp, "r.tif")
                 ToImageStack(case["res"]).transform_and_save(fn, t, verbose=False)
-                back = np.asarray(read_imgs(fn, dtype=np.uint8).get_full())
-                res["saved"] = {"shape": list(back.shape), "same": bool(back.shape == (img.shape[1], img.shape[2], img.shape[0], 1)
-                                                                          and np.array_equal(back[..., 0], np.moveaxis(img, 0, 2)))}
+                try:
+                    back = np.asarray(read_imgs(fn, dtype=np.uint8).get_full())
+                    res["saved"] = {"shape": list(back.shape), "same": bool(back.shape == (img.shape[1], img.shape[2], img.shape[0], 1)
+                                                                              and np.array_equal(back[..., 0], np.moveaxis(img, 0, 2)))}
+                except Exception as e:  # noqa: BLE001 - the oracle decides
+                    res["saved"] = {"exc": type(e).__name__, "msg": str(e)[:200]}
             finally:
                 shutil.rmtree(tmp, ignore_errors=True)
         return res
@@ -286,7 +360,14 @@ class Raster(Suite):
                 return [("raster-empty-z-grid-raises", f"resolution {rs} leaves no z plane in the bounding box {lo}..{hi}: ToImageStack.__call__ raises {res['exc']}: {res.get('msg')} instead of returning a (0, X, Y) stack")]
             return [("raster-raises", f"{res['exc']}: {res.get('msg')}")]
         out = []
-        if "saved" in res and not res["saved"]["same"]:
+        if "saved" in res and "exc" in res["saved"]:
+            sv = res["saved"]
+            if res["shape"][0] == 1 and sv["exc"] == "AssertionError" and "Should be shape" in sv["msg"]:
+                out.append(("raster-file-single-plane-raises", f"a raster of ONE z plane (Z,X,Y)={res['shape']} written by transform_and_save cannot be read back: "
+                                                               f"read_imgs raises {sv['exc']}: {sv['msg']} (the single slice is stored as a 2-D page)"))
+            else:
+                out.append(("raster-saved-raises", f"transform_and_save + read_imgs of a (Z,X,Y)={res['shape']} raster raised {sv['exc']}: {sv['msg']}"))
+        elif "saved" in res and not res["saved"]["same"]:
             out.append(("raster-saved-differs", f"transform_and_save + read_imgs gives a stack of shape {res['saved']['shape']} (X,Y,Z,C) that is not the rasterised "
                                                  f"(Z,X,Y) = {res['shape']} stack with Z moved to the third axis"))
         if res["shape"] != want_shape:
